@@ -416,6 +416,30 @@ fn peval(req: &J) -> J {
     }
 }
 
+/// level validation of one policy against a fixed schema with entity chains: returns whether it passes at each level 0..=4
+fn validate_level(req: &J) -> J {
+    use cedar_policy::{Schema, ValidationMode, Validator};
+    let (schema, _) = match Schema::from_cedarschema_str(
+        "entity User in [Group] { manager: User, name: String, info: { boss: User, n: Long } } tags String; entity Group { owner: User }; entity Photo { owner: User }; \
+         action view appliesTo { principal: User, resource: Photo, context: { who: User } };",
+    ) {
+        Ok(s) => s,
+        Err(e) => return json!({"input_error": e.to_string()}),
+    };
+    let pset = match PolicySet::from_str(req["policy"].as_str().unwrap_or("")) {
+        Ok(p) => p,
+        Err(e) => return json!({"parse_error": e.to_string()}),
+    };
+    let v = Validator::new(schema);
+    let plain = v.validate(&pset, ValidationMode::Strict);
+    let mut passes = vec![];
+    for lvl in 0..=4u32 {
+        let r = v.validate_with_level(&pset, ValidationMode::Strict, lvl);
+        passes.push(r.validation_passed());
+    }
+    json!({"typechecks": plain.validation_passed(), "passes_at_level": passes})
+}
+
 fn handle(req: &J) -> J {
     match req["op"].as_str().unwrap_or("") {
         "eval" => eval(req),
@@ -424,6 +448,7 @@ fn handle(req: &J) -> J {
         "tpe_views" => tpe_views(req),
         "policyset_ops" => policyset_ops(req),
         "peval" => peval(req),
+        "validate_level" => validate_level(req),
         other => json!({"unknown_op": other}),
     }
 }
